@@ -460,7 +460,8 @@ _pool = None
 def pool():
     global _pool
     if _pool is None:
-        _pool = mp.get_context("fork").Pool(min(16, os.cpu_count() or 4))
+        # workers are recycled: a long-lived worker was once seen to fail re-parsing several queries in a row
+        _pool = mp.get_context("fork").Pool(min(16, os.cpu_count() or 4), maxtasksperchild=48)
     return _pool
 
 
